@@ -59,6 +59,7 @@ func Sleep(ctx context.Context, args ...object.Object) object.Object {
 	}
 	timer := time.NewTimer(time.Duration(d*1000) * time.Millisecond)
 	defer timer.Stop()
+	verifSleep(ctx, d)
 	select {
 	case <-ctx.Done():
 	case <-timer.C:
